@@ -180,7 +180,7 @@ func (r *Run) Violation(key string, detail any) bool {
 	}
 	h := sha256.Sum256([]byte(key))
 	dir := filepath.Join(Root, "replays", r.ID)
-	if os.Getenv("VERIF_MUTANT") != "" || (os.Getenv("VERIF_REPO") != "" && os.Getenv("VERIF_REPO") != "/repo") {
+	if os.Getenv("VERIF_MUTANT") != "" || os.Getenv("VERIF_SCRATCH_EVIDENCE") != "" || (os.Getenv("VERIF_REPO") != "" && os.Getenv("VERIF_REPO") != "/repo") {
 		dir = filepath.Join(Root, ".work", lower(r.ID), "replays-scratch") // mutation demos must not litter the real replay dir
 	}
 	os.MkdirAll(dir, 0o755)
